@@ -11,7 +11,7 @@ LEVEL_TEXT = ("Static structural proof of necessary conditions: (R6.1) alias-bas
               "combiner and the curly-brace splicer treat the same set of cell texts as 'missing' ({'', 'n/a'}), and every "
               "column transformer can return only members of that set for a missing cell. The content of the assembled "
               "annotation, ordering and delimiter well-formedness in general are NOT decided.")
-LEVEL_EXTRA = 'Added after the seeded evaluation: (R6.2) the missing marker is compared as a whole cell, never removed as a substring; (R6.3) every reference substitution goes through the n/a-aware splicer; (R6.4) one reference pattern (text and flags) for assembly and sidecar validation. (R6.5) text interpolated into a regular-expression pattern in the assembly modules goes through re.escape; a substituting transformer steps aside for every missing cell text. (R6.6) the replacement handed to re.sub in the assembly modules is a constant or a function. (R6.7) reset_column_mapper rebinds self._sidecar on every path. (R6.8) the categorical lookup applies no case normalisation.'
+LEVEL_EXTRA = 'Added after the seeded evaluation: (R6.2) the missing marker is compared as a whole cell, never removed as a substring; (R6.3) every reference substitution goes through the n/a-aware splicer; (R6.4) one reference pattern (text and flags) for assembly and sidecar validation. (R6.5) text interpolated into a regular-expression pattern in the assembly modules goes through re.escape; a substituting transformer steps aside for every missing cell text. (R6.6) the replacement handed to re.sub in the assembly modules is a constant or a function. (R6.7) reset_column_mapper rebinds self._sidecar on every path. (R6.8) the categorical lookup applies no case normalisation. (R6.9) a parameter is handed on to every repository callee that takes a parameter of the same name (11 frozen exceptions package-wide).'
 
 
 def sentinels(expr, var):
@@ -333,3 +333,8 @@ def run(ctx):
                   "category keys / cell texts are case-normalised: of two keys that differ only in letter case one is lost, and a cell "
                   "with an unknown key that case-matches a key takes that key's annotation", desc="%s: keys compared as written" % m.short)
     ctx.floor("R6.8", "categorical lookup functions of ColumnMapper", n68, 2)
+
+    # ---------------- R6.9: parameters are handed on to same-named parameters of repository callees
+    from sa.forward import check_forwarding
+    nfw = check_forwarding(ctx, "R6.9", [f for f in prog.functions.values() if f.module.name.startswith(('hed.models.df_util', 'hed.models.base_input', 'hed.models.tabular_input', 'hed.models.spreadsheet_input', 'hed.models.column_mapper'))], 'e.g. the schema, definitions, columns')
+    ctx.floor("R6.9", "same-named parameter sites", nfw, 1)
